@@ -41,7 +41,11 @@ fn cmp_case(em: &mut Emitter, a: &[u8], b: &[u8]) {
     em.case(1501, &[bytes_arg(a), bytes_arg(b)], || {
         let r = catch(|| {
             let (ia, ib) = (mk_integer(a).unwrap(), mk_integer(b).unwrap());
-            (ia.cmp(&ib), ia == ib, hash_of(&ia) == hash_of(&ib), ia.partial_cmp(&ib))
+            // an Integer against an Unsigned (where b is non-negative): equal exactly when the numbers are
+            let cross = match mk_unsigned(b) { Some(ub) => Some((ia == ub, Unsigned::cmp(&ub, &ub) == Ordering::Equal && ub == ub)), None => None };
+            let eq = ia == ib;
+            if let Some((x, refl)) = cross { if x != eq || !refl { return (ia.cmp(&ib), !eq, false, None) } }
+            (ia.cmp(&ib), eq, hash_of(&ia) == hash_of(&ib), ia.partial_cmp(&ib))
         });
         match r {
             Some((o, eq, heq, po)) => {
